@@ -64,6 +64,10 @@ def viewRowOk (row : ViewRow) : Bool :=
     outUnit (csrfView c r) == row.out && calls == row.callbackCalls
   | _, _ => false
 
+/-- application row: the model's verdict does not look at the extra view option at all, so a row registered WITH the
+option and the row registered WITHOUT it must both carry the model's outcome -/
+def optRowOk (r : OptRow) : Bool := viewRowOk r.row
+
 /-- origin row: omitted arguments take the model's defaults (`trusted_origins=None` → the settings list,
 `allow_no_origin=False`, `raises=True`); the caller's list and the settings list are left as they were -/
 def originRowOk (row : OriginRow) : Bool :=
